@@ -1798,8 +1798,8 @@ void Router::markPolylineConnectorsNeedingReroutingForDeletedObstacle(
             continue;
         }
 
-        Point start = conn->m_route.ps[0];
-        Point end = conn->m_route.ps[conn->m_route.size() - 1];
+        const Point connStart = conn->m_route.ps[0];
+        const Point connEnd = conn->m_route.ps[conn->m_route.size() - 1];
 
         double conndist = conn->m_route_dist;
 
@@ -1813,6 +1813,11 @@ void Router::markPolylineConnectorsNeedingReroutingForDeletedObstacle(
         {
             const Point& p1 = i->point;
             const Point& p2 = i->shNext->point;
+
+            // Work on copies, since the rotation case below rewrites
+            // these in the rotated frame of the current obstacle edge.
+            Point start = connStart;
+            Point end = connEnd;
 
             double offy;
             double a;
